@@ -18,12 +18,6 @@ the real chain on every run. Vocabulary (defined in `Proofs/ChainStoreInv.lean`,
 namespace Rangers.Props.C05
 open Rangers.Model.ChainStore Rangers.Proofs.ChainStore
 
-theorem Out.of_alive {P : Disk → Mem → Prop} {R : Disk → Prop} {s : St} (h : Out P R s) (ha : s.crashed = false) :
-    P s.disk s.mem := by
-  rcases h with ⟨_, p⟩ | ⟨d, _⟩
-  · exact p
-  · rw [ha] at d; cases d
-
 /-! ## the quiescent-point clause, spelled out -/
 
 /-- What `ChainInv` gives, in the words of the property: the recorded head is the head of a chain
